@@ -32,8 +32,9 @@ func NewTwoPartyHandler(create StartFunc, sessionID []byte, leader bool) (*TwoPa
 		err:      nil,
 		result:   nil,
 		messages: map[round.Number]*Message{},
-		out:      make(chan *Message, 2),
-		mtx:      sync.Mutex{},
+		// large enough for every message of the whole session (at most one per round, plus the abort notice)
+		out: make(chan *Message, int(r.FinalRoundNumber())+2),
+		mtx: sync.Mutex{},
 	}
 	if leader {
 		handler.advance()
